@@ -5,7 +5,7 @@
 -/
 import UnicLocale.Lemmas.Refine
 
-namespace UL
+namespace UL.Rf
 
 /-! ### the pieces of the invariant the proofs use -/
 
@@ -332,4 +332,4 @@ theorem step_fail_unchanged (T : Tables) (x : Locale) (o : Op)
   | maximize => exact outOfBool_unchanged _ _ _ h
   | minimize => exact outOfBool_unchanged _ _ _ h
 
-end UL
+end UL.Rf
